@@ -25,9 +25,9 @@ type Graph struct {
 
 var gkeys = []string{"a", "b", "c", "d", "k", "x", "y", "next", "left", "right", "data", "0", "1", "7"}
 
-func graphValue(t *sim.Tape, links []string, budget *int, depth int, wantLinks bool) *model.V {
+func graphValue(t *sim.Tape, links []string, budget *int, depth int, jsonBlock bool) *model.V {
 	*budget--
-	opts := []model.Kind{model.Int, model.String, model.String, model.Bool, model.Null, model.Bytes}
+	opts := []model.Kind{model.Int, model.String, model.String, model.Bool, model.Null, model.Bytes, model.Float}
 	if len(links) > 0 {
 		opts = append(opts, model.Link, model.Link, model.Link, model.Link, model.Link)
 	}
@@ -42,6 +42,11 @@ func graphValue(t *sim.Tape, links []string, budget *int, depth int, wantLinks b
 		return model.IntV(int64(t.Choice(100, "g.int")))
 	case model.String:
 		return model.StringV([]string{"", "s", "hello world", "héllo wörld 日本語", "0123456789abcdef"}[t.Choice(5, "g.str")])
+	case model.Float:
+		if jsonBlock {
+			return model.FloatV([]float64{0.5, -2.25, 1e300}[t.Choice(3, "g.float")]) // dag-json keeps only floats with a fraction or exponent
+		}
+		return model.FloatV([]float64{0, 0, 0.5, -1, 1e21}[t.Choice(5, "g.float")])
 	case model.Bool:
 		return model.BoolV(t.Bool("g.bool"))
 	case model.Null:
@@ -54,7 +59,7 @@ func graphValue(t *sim.Tape, links []string, budget *int, depth int, wantLinks b
 		v := &model.V{K: model.List}
 		n := 1 + t.Choice(4, "g.listlen")
 		for i := 0; i < n && *budget > 0; i++ {
-			v.Vals = append(v.Vals, graphValue(t, links, budget, depth+1, wantLinks))
+			v.Vals = append(v.Vals, graphValue(t, links, budget, depth+1, jsonBlock))
 		}
 		return v
 	default:
@@ -67,7 +72,7 @@ func graphValue(t *sim.Tape, links []string, budget *int, depth int, wantLinks b
 				continue
 			}
 			seen[k] = true
-			v.Put(k, graphValue(t, links, budget, depth+1, wantLinks))
+			v.Put(k, graphValue(t, links, budget, depth+1, jsonBlock))
 		}
 		return v
 	}
@@ -89,10 +94,11 @@ func NewGraph(t *sim.Tape, lsys *linking.LinkSystem, maxBlocks int, danglePct in
 			g.Dangling = append(g.Dangling, c.KeyString())
 		}
 		var v *model.V
+		jsonBlock := i < nb-1 && t.Pct(15, "g.dagjson")
 		if i < nb-1 && t.Pct(12, "g.scalarblock") {
 			v = model.StringV("scalar block")
 		} else {
-			v = graphValue(t, links, &budget, 0, true)
+			v = graphValue(t, links, &budget, 0, jsonBlock || i == nb-1)
 		}
 		g.Blocks = append(g.Blocks, v)
 		n := basicnode.Prototype.Any.NewBuilder()
@@ -106,7 +112,7 @@ func NewGraph(t *sim.Tape, lsys *linking.LinkSystem, maxBlocks int, danglePct in
 			break
 		}
 		codec := uint64(0x71)
-		if t.Pct(15, "g.dagjson") {
+		if jsonBlock {
 			codec = 0x0129
 		}
 		lp := cidlink.LinkPrototype{Prefix: cid.Prefix{Version: 1, Codec: codec, MhType: mh.SHA2_256, MhLength: -1}}
